@@ -215,6 +215,7 @@ def main(argv=None):
         json.dump(rp, open(path, 'w'), indent=1)
         if k:
             known_hits.append((k, f))
+            f['known'] = True
         else:
             violations.append((path, f, found))
 
@@ -277,7 +278,9 @@ def build_evidence(pid, P, tier, seed, unit_results, violations, known_hits, wal
             assumptions += spec.get('assumptions', [])
         else:
             u.update(r.get('evidence', {}))
-            if r.get('complete'):
+            if r.get('failures') and all(f.get('known') for f in r['failures']):
+                u['status'] = 'known-finding'   # reported, not counted as an obligation of the proof claim
+            elif r.get('complete'):
                 obligations += r.get('checks', 0)
                 discharged += r.get('checks_ok', 0)
             else:
